@@ -1158,6 +1158,25 @@ def c17(ctx):
             if prev is not None and f < prev - 1e-12:
                 viols.append(V("C17", "fco2-monotone", pseudo, "CO2 factor decreases with concentration", crop=cname, conc=conc, f=float(f), prev=float(prev)))
             prev = f
+        # the same lattice through the season-start reset (the factor in force from the second season on)
+        from .lines import fco2_reset as FR
+        prev = None
+        for conc in concs:
+            try:
+                f = FR.reset_factor(float(conc), 369.41, cname)
+                f0 = FI.FUNC(float(conc), 369.41, c)
+            except Exception:  # noqa: BLE001
+                break
+            if f is None:
+                break
+            evals += 1
+            if abs(conc - 369.41) < 1e-12 and abs(f - 1.0) > 1e-12:
+                viols.append(V("C17", "fco2-reset-at-ref", pseudo, "CO2 factor recomputed at season start is not 1 at the reference concentration", crop=cname, f=float(f)))
+            if prev is not None and f < prev - 1e-12:
+                viols.append(V("C17", "fco2-reset-monotone", pseudo, "CO2 factor recomputed at season start decreases with concentration", crop=cname, conc=conc, f=float(f), prev=float(prev)))
+            if f0 is not None and abs(f - f0) > 1e-12 * max(1.0, abs(f0)):
+                viols.append(V("C17", "fco2-reset-differs-from-init", pseudo, "CO2 factor of later seasons differs from the first season's at the same concentration", crop=cname, conc=conc, reset=float(f), init=float(f0)))
+            prev = f
     return viols, dict(evaluations=evals, distinct_nontrivial=nontriv, c17_crops=len(S.CROPS),
                        c17_samples=[dict(lattice="depletion -20..120 % TAW x ET0 0.1..20; T -30..60; time; CO2 250..2500", crops=len(S.CROPS))])
 
@@ -1181,7 +1200,7 @@ def c18_model_checks(sc, model, viols):
         viols.append(V("C18", "layers-not-contiguous", sc, "layers are not contiguous from the surface", layers=lay.tolist()))
     if not (np.all(P["th_dry"] < P["th_wp"]) and np.all(P["th_wp"] < P["th_fc"]) and np.all(P["th_fc"] <= P["th_s"])):
         viols.append(V("C18", "hydraulic-order", sc, "air-dry < wilting point < field capacity <= saturation violated"))
-    if np.any(P["tau"] < 0) or np.any(P["tau"] > 1):
+    if not np.all((P["tau"] >= 0) & (P["tau"] <= 1)):   # NaN counts
         viols.append(V("C18", "tau-range", sc, "drainage coefficient outside [0,1]"))
     zmax = float(model.crop.Zmax)
     if P["dzsum"][-1] < zmax + 0.1 - 1e-9:
@@ -1249,6 +1268,16 @@ def c18(ctx):
                             weather={"kind": "file", "name": "champion_climate.txt"}, soil={"type": soil},
                             crop={"name": crop, "planting": "05/01", "overrides": {}},
                             iwc=S.random_iwc(rng, 2 if soil in ("Paddy", "ac_TunisLocal") else 1)))
+    # layers that end above the bottom of the compartment list: the last layer is extended downwards
+    base = dict(start="1982/05/01", end="1982/12/31", weather={"kind": "file", "name": "champion_climate.txt"},
+                crop={"name": "Maize", "planting": "05/01", "overrides": {}})
+    scs.append(dict(base, id="c18-short-layers", iwc=S.random_iwc(rng, 2),
+                    soil={"type": "custom", "dz": [0.1] * 12, "layers": [[0.4, 0.10, 0.22, 0.41, 1200, 100], [0.4, 0.23, 0.39, 0.5, 125, 100]]}))
+    scs.append(dict(base, id="c18-short-texture", iwc=S.random_iwc(rng, 1),
+                    soil={"type": "custom", "dz": [0.1] * 18, "texture": [[1.0, 40, 30, 2.0, 100]]}))
+    scs.append(dict(base, id="c18-paddy-25", iwc=S.random_iwc(rng, 2), soil={"type": "Paddy", "dz": [0.1] * 25}))
+    scs.append(dict(base, id="c18-ulp-short", iwc=S.random_iwc(rng, 2),
+                    soil={"type": "custom", "dz": [0.1] * 9, "layers": [[0.3, 0.10, 0.22, 0.41, 1200, 100], [0.6, 0.23, 0.39, 0.5, 125, 100]]}))
     for sc in scs:
         try:
             model = S.build_model(sc)
